@@ -27,6 +27,8 @@ def make_stab(n, gens, with_phases=True):
     R, S, ph = libif.paulis_to_matrices(gens, n)
     if h == 1:
         return L.Stabilizer((R.astype(np.int64), S.astype(np.int64), ph.astype(np.int64)))
+    if h == 2:
+        return L.Stabilizer((R.astype(np.bool_), S.astype(np.bool_), ph.astype(np.bool_)))
     return L.Stabilizer((R, S, ph)) if with_phases else L.Stabilizer((R, S))
 
 
